@@ -10,8 +10,14 @@ import (
 )
 
 type loopHead struct {
-	dec   *Term // value of the decreases measure at the head (nil if none)
-	names map[string]bool
+	dec       *Term // value of the decreases measure at the head (nil if none)
+	names     map[string]bool
+	entryVals map[int]*Term // vAtEntry values, by call-site ordinal
+}
+
+type loopEvalCtx struct {
+	head  *loopHead
+	entry bool
 }
 
 func (e *Engine) loopKey(fr *Frame, li *loopInfo) string {
@@ -23,8 +29,15 @@ func (e *Engine) unrollCount(fr *Frame, li *loopInfo) int {
 		// the function body is `return N`
 		for _, b := range fn.Blocks {
 			for _, in := range b.Instrs {
-				if r, ok := in.(*ssa.Return); ok && len(r.Results) == 1 {
-					if c, ok := r.Results[0].(*ssa.Const); ok {
+				switch x := in.(type) {
+				case *ssa.Return:
+					if len(x.Results) == 1 {
+						if c, ok := x.Results[0].(*ssa.Const); ok {
+							return int(c.Int64())
+						}
+					}
+				case *ssa.Store:
+					if c, ok := x.Val.(*ssa.Const); ok && c.Value != nil {
 						return int(c.Int64())
 					}
 				}
@@ -130,8 +143,12 @@ func (e *Engine) enterLoop(fr *Frame, li *loopInfo, cur *State) *State {
 		fr.heads = map[*loopInfo]*loopHead{}
 	}
 	// 1. invariant holds on entry
+	h := &loopHead{entryVals: map[int]*Term{}}
+	fr.heads[li] = h
 	pre := cur.clone()
+	e.loopEval = &loopEvalCtx{head: h, entry: true}
 	iv := e.evalLoopFn(fr, pre, inv, li)
+	e.loopEval = nil
 	e.obligeNamed(fr, pre, "inv-init", li, iv.term(), fmt.Sprintf("loop %d invariant holds on entry", li.ord))
 
 	// 2. havoc what the loop may change
@@ -202,7 +219,10 @@ func (e *Engine) enterLoop(fr *Frame, li *loopInfo, cur *State) *State {
 			}
 		}
 		probe := st.clone()
-		if ivq, ok := e.tryEvalLoopFnQuiet(fr, probe, inv, li); ok {
+		e.loopEval = &loopEvalCtx{head: h}
+		ivq, okq := e.tryEvalLoopFnQuiet(fr, probe, inv, li)
+		e.loopEval = nil
+		if okq {
 			probe.assume(ivq.term())
 			func() {
 				q := fr.quiet
@@ -239,7 +259,7 @@ func (e *Engine) enterLoop(fr *Frame, li *loopInfo, cur *State) *State {
 			vprefix := fmt.Sprintf("loop%d.", loopID)
 			for _, name := range mods {
 				m, ok := entryMems[name]
-				if !ok || len(m.ksort) != 2 {
+				if !ok || (len(m.ksort) != 2 && len(m.ksort) != 1) || strings.HasPrefix(name, "map:") {
 					continue
 				}
 				var regions []*Term
@@ -253,9 +273,12 @@ func (e *Engine) enterLoop(fr *Frame, li *loopInfo, cur *State) *State {
 						okFrame = false
 						break
 					}
-					if r.IsConst() && r.val.Uint64()>>60 == 0xF && r.val.Uint64()&0x0FFFFFFFFFFFFFFF > seq0 {
+					if r.IsConst() && r.sort == RegionSort && r.val.Uint64()>>60 == 0xF && r.val.Uint64()&0x0FFFFFFFFFFFFFFF > seq0 {
 						fresh = true
 						continue
+					}
+					if r.IsConst() && r.sort == RefSort && r.val.Uint64() > 0x80000000+seq0 {
+						// object allocated inside the loop: named individually below
 					}
 					if dependsOnLoop(r, prefix, vprefix) {
 						okFrame = false
@@ -289,16 +312,16 @@ func (e *Engine) enterLoop(fr *Frame, li *loopInfo, cur *State) *State {
 		}
 	}
 	// 3. assume the invariant
+	e.loopEval = &loopEvalCtx{head: h}
 	iv2 := e.evalLoopFnQuiet(fr, st, inv, li)
+	e.loopEval = nil
 	st.assume(iv2.term())
-	h := &loopHead{}
 	if dec := e.decs[key]; dec != nil {
 		d := e.evalLoopFnQuiet(fr, st, dec, li)
 		h.dec = d.term()
 	} else if !isRangeLoop(li) {
 		e.warn("loop %d of %s has no decreases measure: partial correctness only", li.ord, fnName(fr.fn))
 	}
-	fr.heads[li] = h
 	return st
 }
 
@@ -330,7 +353,9 @@ func (e *Engine) backEdge(fr *Frame, li *loopInfo, s *State, from *ssa.BasicBloc
 	if inv == nil || h == nil {
 		unsup("back edge of loop %d without invariant", li.ord)
 	}
+	e.loopEval = &loopEvalCtx{head: h}
 	iv := e.evalLoopFn(fr, s, inv, li)
+	e.loopEval = nil
 	e.obligeNamed(fr, s, "inv-preserved", li, iv.term(), fmt.Sprintf("loop %d invariant preserved", li.ord))
 	if dec := e.decs[key]; dec != nil && h.dec != nil {
 		d := e.evalLoopFnQuiet(fr, s, dec, li).term()
